@@ -290,3 +290,80 @@ def diff(r, atom):
     r = _r(r)
     # (n/d)' = (n' d - n d') / d^2
     return Rat(diff_poly(r.n, atom) * r.d - r.n * diff_poly(r.d, atom), r.d * r.d)
+
+
+# ---------------------------------------------------------------------------
+# parsing of the canonical text produced by Poly.__str__ (used to re-index atoms such as `x[1 + i]`)
+def parse_poly(s):
+    s = s.strip()
+    if s == '0':
+        return Poly()
+    # split into signed terms
+    terms = []
+    cur = ''
+    i = 0
+    toks = s.replace(' - ', ' + -').split(' + ')
+    res = Poly()
+    for t in toks:
+        t = t.strip()
+        sign = 1
+        if t.startswith('-'):
+            sign = -1
+            t = t[1:]
+        factors = t.split('*')
+        coeff = Fraction(1)
+        mono = {}
+        for f in factors:
+            f = f.strip()
+            if _is_number(f):
+                coeff *= Fraction(f)
+            else:
+                if '^' in f:
+                    a, e = f.rsplit('^', 1)
+                    mono[a] = mono.get(a, 0) + int(e)
+                else:
+                    mono[f] = mono.get(f, 0) + 1
+        res = res + Poly({tuple(sorted(mono.items())): sign * coeff})
+    return res
+
+
+def _is_number(f):
+    try:
+        Fraction(f)
+        return True
+    except (ValueError, ZeroDivisionError):
+        return False
+
+
+def split_atom(name):
+    """`x[1 + i]` -> ('x', ['1 + i']) ; `z[i_x,1 + i_y]` -> ('z', ['i_x', '1 + i_y']); plain -> (name, None)"""
+    if name.endswith(']') and '[' in name and not name.startswith('rem_euclid('):
+        base, rest = name.split('[', 1)
+        return base, [p.strip() for p in rest[:-1].split(',')]
+    return name, None
+
+
+def reindex(r, mapping):
+    """substitute index variables inside indexed atoms: mapping var -> Poly/Rat (index expression).
+    `x[1 + i]` with {i: n - 3} becomes `x[-2 + n]`."""
+    r = _r(r)
+    sub = {}
+    for a in r.atoms():
+        base, idxs = split_atom(a)
+        if idxs is None:
+            continue
+        new = []
+        changed = False
+        for ix in idxs:
+            p = parse_poly(ix)
+            if p.atoms() & set(mapping):
+                q = p.subs({k: (v if isinstance(v, (Poly, Rat)) else Poly.const(v)) for k, v in mapping.items()})
+                new.append(str(q))
+                changed = True
+            else:
+                new.append(ix)
+        if changed:
+            sub[a] = Rat.atom("%s[%s]" % (base, ",".join(new)))
+    if not sub:
+        return r
+    return r.subs(sub)
